@@ -32,23 +32,51 @@ _scratch_root = None
 
 
 def scratch_root():
-    """Private scratch directory of this process (tmpfs), removed at exit."""
+    """Private scratch directory of this process (tmpfs).  Pool workers do
+    not run atexit handlers, so their directories are created inside the
+    main process's directory (WHVERIF_PARENT), which the main process
+    removes at exit / when the pool is closed."""
     global _scratch_root
     if _scratch_root is None or not os.path.isdir(_scratch_root):
-        base = "/dev/shm" if os.path.isdir("/dev/shm") else None
+        parent = os.environ.get("WHVERIF_PARENT")
+        if parent and os.path.isdir(parent):
+            base = parent
+        else:
+            base = "/dev/shm" if os.path.isdir("/dev/shm") else None
         _scratch_root = tempfile.mkdtemp(prefix="whverif_%d_" % os.getpid(),
                                          dir=base)
         # RamStorage.temp_storage() uses tempfile.gettempdir()/<name>.tmp and
         # destroy() empties it: every process needs its own.
         tempfile.tempdir = _scratch_root
-        import atexit
-        atexit.register(_cleanup, _scratch_root, os.getpid())
+        if base != parent:
+            os.environ["WHVERIF_PARENT"] = _scratch_root
+            import atexit
+            atexit.register(_cleanup, _scratch_root, os.getpid())
     return _scratch_root
 
 
 def _cleanup(path, pid):
     if os.getpid() == pid:
         shutil.rmtree(path, ignore_errors=True)
+
+
+def _remove_stale_scratch():
+    """Scratch directories of check processes that no longer exist (killed
+    runs cannot clean up after themselves)."""
+    base = "/dev/shm"
+    try:
+        names = os.listdir(base)
+    except OSError:
+        return
+    for n in names:
+        if not n.startswith("whverif_"):
+            continue
+        try:
+            pid = int(n.split("_")[1])
+        except (IndexError, ValueError):
+            continue
+        if not os.path.exists("/proc/%d" % pid):
+            shutil.rmtree(os.path.join(base, n), ignore_errors=True)
 
 
 def fresh_dir(prefix="d"):
@@ -315,6 +343,8 @@ def main(argv=None):
     if os.environ.get("PYTHONHASHSEED") != "0":
         sys.stderr.write("HARNESS ERROR: run through ./check (PYTHONHASHSEED=0)\n")
         return 2
+    os.environ.pop("WHVERIF_PARENT", None)
+    _remove_stale_scratch()
     setup_process(seed)
     if args.selftest:
         from mc import selftest
